@@ -55,6 +55,9 @@ SharedCases ==
                   entries |-> << E("affine", 1, m1), Q1(E("affine", 2, "none")) @@ [shareq |-> 0], E("affine", 3, "none") >>, src |-> "gen", cls |-> "shared-q"] : m1 \in {"none", "P"} })
      \o SetToSeq({ [op |-> "pair.sum", rounds |-> 2, na |-> 2, np |-> 1, mask |-> <<m1, "none", "none">>,
                   entries |-> << E("affine", 1, m1), P1(E("affine", 2, "none")) @@ [sharep |-> 0], Q1(E("prepared", 3, "none")) >>, src |-> "gen", cls |-> "shared-p"] : m1 \in {"none", "Q"} })
+     \* two prepared records naming the same prepared object
+     \o SetToSeq({ [op |-> "pair.sum", rounds |-> 2, na |-> na, np |-> 2, mask |-> [i \in 1..(na + 2) |-> "none"],
+                  entries |-> (IF na = 1 THEN << E("affine", 3, "none") >> ELSE <<>>) \o << E("prepared", 1, "none"), Q1(E("prepared", 2, "none")) @@ [shareq |-> na] >>, src |-> "gen", cls |-> "shared-prepared"] : na \in {0, 1} })
      \o << [op |-> "pair.sum", rounds |-> 1, na |-> 3, np |-> 0, mask |-> <<"P", "P", "none">>,
             entries |-> << E("affine", 1, "P"), Q1(E("affine", 2, "P")) @@ [shareq |-> 0], Q1(E("affine", 3, "none")) @@ [shareq |-> 1] >>, src |-> "gen", cls |-> "shared-q"] >>
 
@@ -106,7 +109,7 @@ GtCases ==
              v \in {"div", "nodiv", "powx", "c"}, a \in GTBases, k \in Exps, al \in {0, 1} })
   \o SetToSeq({ [op |-> "gt.exp", variant |-> v, a |-> Raw12(GTGen), k |-> Pad(k, 32), alias |-> 0, src |-> "gen"] : v \in {"powx", "c"}, k \in DigitFamCore })
   \o SetToSeq({ [op |-> "gt.op", which |-> w, a |-> Raw12(a), b |-> Raw12(b), alias |-> al, src |-> "gen"] :
-                w \in {"add", "negate", "double", "equal", "marshal"}, a \in GTBases, b \in GTBases, al \in {0, 1, 2} })
+                w \in {"add", "negate", "double", "equal", "marshal"}, a \in GTBases \cup {F12!EOne}, b \in GTBases \cup {F12!EOne}, al \in {0, 1, 2} })
   \o SetToSeq({ [op |-> "gt.op", which |-> "add", a |-> Raw12(a), b |-> Raw12(a), alias |-> 3, src |-> "gen"] : a \in GTBases })
   \o SetToSeq({ [op |-> "gt.random", variant |-> v, a |-> Raw12(a), stream |-> s, alias |-> al, src |-> "gen"] : v \in {"c", "cpp"}, a \in GTBases, s \in PowXStreams, al \in {0, 1} })
   \* the final exponentiation as a function on all of Fq12* (its input is a Miller-loop value, not a GT element)
